@@ -3,5 +3,6 @@ CONSTANTS
   MaxLen = 4
   Tok = {"+","-","*","/","%","@","=","^",".undef","$T0","$eip","$esp","$ebp","$ebx","$edi",".raSearch",".cbLocals",".cbParams","l4","lm1","l8","=l4","$nope"}
   InstIds = {"normal"}
+  Prefixes <- PrefixesNone
 INVARIANTS TypeOK OnlyOuts NoImplicit Emit
 CHECK_DEADLOCK FALSE
